@@ -82,6 +82,18 @@ def _wiring(ctx):
             if len(calls) != 1:
                 raise AnalysisError("%s.%s: expected one solver call, found %d" % (ci.name, mname, len(calls)))
             _check_call(ctx, prog, ci, f, calls[0], unknown, given, f.params[1])
+        # the strain belonging to a stress is the Ramberg-Osgood strain (primary) / its Masing doubling (secondary)
+        for mname, ro, arg in (("strain", "strain", "stress"), ("strain_secondary_branch", "delta_strain", "delta_stress")):
+            f = prog.lookup_method(ci, mname)
+            r = [s_ for s_ in f.node.body if isinstance(s_, ast.Return)][-1]
+            v = r.value
+            ok = isinstance(v, ast.Call) and isinstance(v.func, ast.Attribute) and v.func.attr == ro and \
+                is_self_attr(v.func.value, "_ramberg_osgood_relation") and len(v.args) == 1 and norm_text(v.args[0]) == arg
+            if ok:
+                ctx.holds(f, r, "%s.%s(%s, ...) = RambergOsgood.%s(%s)" % (ci.name, mname, arg, ro, arg), rule="R-C06-1")
+            else:
+                ctx.violated(f, r, "%s.%s does not return the Ramberg-Osgood %s of the given stress" % (ci.name, mname, ro),
+                             rule="R-C06-1")
         # retry helpers
         for name, defs in ci.methods.items():
             f = defs[-1]
